@@ -7,7 +7,11 @@ mod c02;
 mod c03;
 mod c04;
 mod c05;
+mod c06;
+mod c07;
+mod c08;
 mod c10;
+mod shapegen;
 mod c11;
 mod c12;
 mod c14;
@@ -32,6 +36,9 @@ fn main() {
         "c11" => c11::run(seed, count, &outdir).unwrap(),
         "c11-chunk" => { let lo = count; let hi: usize = outdir.parse().unwrap(); c11::run_chunk(seed, lo, hi); 0 }
         "c05" => c05::run(seed, count, &outdir).unwrap(),
+        "c06" => c06::run(seed, count, &outdir).unwrap(),
+        "c07" => c07::run(seed, count, &outdir).unwrap(),
+        "c08" => c08::run(seed, count, &outdir).unwrap(),
         "c10" => c10::run(seed, count, &outdir).unwrap(),
         "c12" => c12::run(seed, count, &outdir, "c12").unwrap(),
         "c13" => c12::run(seed, count, &outdir, "c13").unwrap(),
